@@ -15,6 +15,7 @@ from lib import runner
 import asn1tools.parser as P
 from pyparsing import ParseSyntaxException
 from symcore import Engine, E, HarnessError, Inconclusive
+from pyfront import rx
 
 PROP = 'C14'
 ALPHA = '-/*\n"x '
@@ -33,68 +34,42 @@ def _is(sc, c):
     return z3.BoolVal(sc == c)
 
 
-class SymMatch:
-    def __init__(self, start, text):
-        self._s, self._t = start, text
+class _Compiled:
+    def __init__(self, pattern, flags=0):
+        self.pattern, self.flags = pattern, flags
 
-    def start(self):
-        return self._s
+    def finditer(self, string):
+        return ReShim.finditer(self.pattern, string, self.flags)
 
-    def group(self, i=0):
-        return self._t
+    def sub(self, repl, string, count=0):
+        return ReShim.sub(self.pattern, repl, string, count, self.flags)
 
 
 class ReShim:
-    """the subset of `re` that parser.ignore_comments uses, read from the CURRENT pattern text"""
+    """the part of `re` that parser.ignore_comments uses, on placeholder text: the CURRENT pattern is
+    parsed by CPython's regex parser and matched by pyfront.rx with one solver decision per
+    character test"""
     error = _re.error
 
     @staticmethod
-    def _alts(pattern):
-        m = _re.fullmatch(r'\((.*)\)', pattern)
-        if not m:
-            raise Inconclusive('regex %r is not an alternation of literals' % pattern)
-        alts = []
-        for a in m.group(1).split('|'):
-            lit = a.replace('\\*', '*').replace('\\n', '\n').replace('\\"', '"')
-            if any(ch in lit for ch in '\\[](){}+?.^$') or not all(c in ALPHA for c in lit):
-                raise Inconclusive('regex alternative %r outside the shim' % a)
-            alts.append(lit)
-        return alts
+    def _expr(sc):
+        return _chvar(sc) if ord(sc) >= BASE else None
 
     @staticmethod
-    def finditer(pattern, string):
-        alts = ReShim._alts(pattern)
-        eng = E()
-        i, n, out = 0, len(string), []
-        while i < n:
-            hit = None
-            for a in alts:               # leftmost alternative wins (python re semantics)
-                if i + len(a) > n:
-                    continue
-                if eng.branch(z3.And([_is(string[i + k], c) for k, c in enumerate(a)])):
-                    hit = a
-                    break
-            if hit:
-                out.append(SymMatch(i, hit))
-                i += len(hit)
-            else:
-                i += 1
-        return iter(out)
+    def finditer(pattern, string, flags=0):
+        return iter(rx.finditer(pattern, string, ReShim._expr, 8, flags))
 
     @staticmethod
-    def sub(pattern, repl, string):
-        m = _re.fullmatch(r'\[\^(\\n|.)\]', pattern)
-        if not m or len(repl) != 1:
-            raise Inconclusive('re.sub(%r) outside the shim' % pattern)
-        keep = '\n' if m.group(1) == '\\n' else m.group(1)
-        eng = E()
-        out = []
-        for sc in string:
-            if eng.branch(_is(sc, keep)):
-                out.append(sc)
-            else:
-                out.append(repl)
-        return ''.join(out)
+    def sub(pattern, repl, string, count=0, flags=0):
+        return rx.sub(pattern, repl, string, ReShim._expr, 8, count, flags)
+
+    @staticmethod
+    def compile(pattern, flags=0):
+        return _Compiled(pattern, flags)
+
+    @staticmethod
+    def escape(s):
+        return _re.escape(s)
 
 
 def text_guard():
@@ -206,6 +181,8 @@ def jobs_for(tier):
     jobs = []
     for n in range(0, (6 if tier == 'quick' else 8) + 1):
         jobs.append(dict(id='comments/len%d' % n, kind='comments', n=n, tier=tier))
+    for n in range(0, (4 if tier == 'quick' else 6) + 1):
+        jobs.append(dict(id='errorpos/len%d' % n, kind='errorpos', n=n, tier=tier))
     for kw in keywords():
         if FIXTURES.get(kw):
             jobs.append(dict(id='keyword/%s' % kw.replace(' ', '_'), kind='keyword', kw=kw, tier=tier))
@@ -215,6 +192,8 @@ def jobs_for(tier):
 def make_harness(job):
     if job['kind'] == 'keyword':
         return make_keyword(job)
+    if job['kind'] == 'errorpos':
+        return make_errorpos(job)
     n = job['n']
     guard = text_guard()
 
@@ -287,6 +266,172 @@ def make_harness(job):
     return harness
 
 
+# ---- error position mapping: parse_string's except branch on symbolic layout ------------------------
+HEAD = 'A DEFINITIONS ::= BEGIN '
+TAIL = ' END\n'
+ALPHA_E = '\t\n -/*x'
+
+
+class _NoOffendingItem(Exception):
+    pass
+
+
+def _sym_is(sc, c):
+    """python bool: text character sc is c (solver decision for a placeholder)"""
+    if ord(sc) >= BASE:
+        return E().branch(_chvar(sc) == ord(c))
+    return sc == c
+
+
+class StubParseException(ParseSyntaxException):
+    """pyparsing's exception with its position properties (lineno, col, line: functions of pstr
+    and loc, pyparsing.util) evaluated on placeholder text: '\n' tests are solver decisions"""
+
+    def __init__(self, pstr, loc, msg):
+        Exception.__init__(self)
+        self.pstr, self.loc, self.msg = pstr, loc, msg
+        self.parser_element = self.parserElement = None
+        self.args = (pstr, loc, msg)
+
+    def _last_nl(self):
+        s, loc = self.pstr, self.loc
+        for i in range(min(loc, len(s)) - 1, -1, -1):
+            if _sym_is(s[i], '\n'):
+                return i
+        return -1
+
+    @property
+    def lineno(self):
+        s, loc = self.pstr, self.loc
+        return 1 + sum(1 for i in range(min(loc, len(s))) if _sym_is(s[i], '\n'))
+
+    @property
+    def col(self):
+        return self.loc - self._last_nl()
+
+    column = col
+
+    @property
+    def line(self):
+        s = self.pstr
+        a = self._last_nl() + 1
+        b = len(s)
+        for i in range(self.loc, len(s)):
+            if _sym_is(s[i], '\n'):
+                b = i
+                break
+        return s[a:b]
+
+    def markInputline(self, marker_string='>!<'):
+        line_str = self.line
+        line_column = self.column - 1
+        if marker_string:
+            line_str = ''.join((line_str[:line_column], marker_string, line_str[line_column:]))
+        return line_str.strip() if not any(ord(ch) >= BASE for ch in line_str) else line_str
+
+    mark_input_line = markInputline
+
+    def __str__(self):
+        return self.msg
+
+
+class StubGrammar:
+    """pyparsing's parseString contract as far as parse_string depends on it: the text is
+    tab-expanded first (parse_with_tabs is off), the exception carries the expanded text and the
+    offset of the offending item in it.  The offending item is the '!' of the harness text."""
+
+    def parseString(self, string, parseAll=False):
+        out = []
+        colno = 0
+        for ch in string:
+            if _sym_is(ch, '\t'):
+                k = 8 - colno % 8
+                out.append(' ' * k)
+                colno += k
+            elif _sym_is(ch, '\n'):
+                out.append(ch)
+                colno = 0
+            else:
+                out.append(ch)
+                colno += 1
+        expanded = ''.join(out)
+        loc = expanded.find('!')
+        if loc < 0:
+            raise _NoOffendingItem()
+        raise StubParseException(expanded, loc, "Expected END")
+
+    parse_string = parseString
+
+
+def make_errorpos(job):
+    n = job['n']
+    guard = text_guard()
+
+    def harness(ctx):
+        if guard:
+            raise Inconclusive('ignore_comments inspects its text natively: ' + guard)
+        chars = [ctx.bv('c%d' % i, 8) for i in range(n)]
+        ctx.eng.registry['c14chars'] = chars
+        for c in chars:
+            ctx.eng.assume(z3.Or([c == ord(a) for a in ALPHA_E]))
+        prefix = ''.join(chr(BASE + i) for i in range(n))
+        s = HEAD + prefix + '!' + TAIL
+
+        def text(m):
+            return HEAD + ''.join(chr(m.eval(c, model_completion=True).as_long()) for c in chars) + '!' + TAIL
+        ctx.describe = lambda m: {'text': text(m)}
+        kinds = ref_lex(s)
+        if kinds is None or kinds == 'stray':
+            ctx.note('layout-is-not-well-formed(unterminated comment / stray */): other harness')
+            return
+        bang = len(HEAD) + n
+        # only layout between the module header and the offending item
+        for i in range(len(HEAD), bang):
+            if kinds[i] == 'keep' and not (_sym_is(s[i], ' ') or _sym_is(s[i], '\t') or _sym_is(s[i], '\n')):
+                ctx.note('prefix-holds-an-earlier-item')
+                return
+        if kinds[bang] != 'keep':
+            ctx.note('offending-item-inside-a-comment')
+            return
+        want = 1 + sum(1 for i in range(len(HEAD), bang) if _sym_is(s[i], '\n'))
+        old = (P.re, P.create_grammar)
+        P.re, P.create_grammar = ReShim, (lambda: StubGrammar())
+        try:
+            try:
+                P.parse_string(s)
+                msg = None
+            except P.ParseError as e:
+                msg = str(e)
+            except _NoOffendingItem:
+                msg = ''
+        finally:
+            P.re, P.create_grammar = old
+        m = ctx.eng.get_model()
+        t = text(m)
+        try:
+            asn1tools.parse_string(t)
+            real = None
+        except asn1tools.ParseError as e:
+            real = str(e)
+        ctx.res.xval += 1
+        mm = _re.match(r'Invalid ASN.1 syntax at line (\d+), column (\d+)', msg or '')
+        rm = _re.match(r'Invalid ASN.1 syntax at line (\d+), column (\d+)', real or '')
+        if not mm:
+            ctx.violation('offending-item-not-reported', 'symbolic run: %r' % (msg,))
+            return
+        got = int(mm.group(1))
+        if got != want:
+            ctx.violation('error-line-differs-from-original-text', 'reported line %d, the item is on line %d' % (got, want))
+            return
+        if rm is None or int(rm.group(1)) != want:
+            ctx.violation('error-line-differs-from-original-text(real grammar)',
+                          'real parse_string reports %r, the item is on line %d' % (real, want))
+            return
+        ctx.res.proved += 1
+        ctx.sample({'job': job['id'], 'text': t, 'error': real})
+    return harness
+
+
 def make_keyword(job):
     kw = job['kw']
     words = kw.split(' ')
@@ -335,6 +480,20 @@ def replay(v):
             return True, '%r written with separator %r is rejected: %s' % (kw, sep, str(e)[:80])
         return got != want, '%r with separator %r parses differently' % (kw, sep)
     t = inp['text']
+    if job['kind'] == 'errorpos':
+        bang = t.index('!', len(HEAD))
+        want = 1 + t.count('\n', 0, bang)
+        try:
+            asn1tools.parse_string(t)
+            return True, 'text %r is accepted' % t
+        except asn1tools.ParseError as e:
+            mm = _re.match(r'Invalid ASN.1 syntax at line (\d+), column (\d+)', str(e))
+            if not mm:
+                return True, 'text %r: error without position: %s' % (t, e)
+            if int(mm.group(1)) != want:
+                return True, 'text %r: error reported at line %s, the offending item is on line %d (%s)' % (
+                    t, mm.group(1), want, str(e)[:80])
+            return False, 'line %d reported correctly' % want
     try:
         out = P.ignore_comments(t)
     except ParseSyntaxException:
